@@ -363,3 +363,8 @@ def c06_success_deferred_request(rp):       # fixed 2acdd0f
 
 def c15_cr_only_line_endings(rp):            # known
     return rp.get('group') == 'line_endings CR only'
+
+
+def c10_import_unicode_cipher_name(rp):      # fixed acd4cf0
+    return rp.get('kind') == 'parser' and rp.get('exc') == 'builtins.UnicodeDecodeError' and \
+        str(rp.get('func', '')).startswith('import_private_key')
